@@ -15,9 +15,10 @@ Theorem C25_write_fbig : forall s c h off cnt stable data,
   ob_rpc (snd r) = 0 /\ ob_status (snd r) = NFSERR_FBIG /\ fs (fst r) = fs s /\ blog (fst r) = [].
 Proof. exact step_write_fbig. Qed.
 
-(* "the handle resolves, GetAttr succeeds": lookup_node and the Lstat of GetAttr *)
+(* "the handle resolves, GetAttr succeeds": lookup_node (of a non-symlink node: a symlink handle is refused with
+   INVAL before anything else, C01_setattr_link_guard) and the Lstat of GetAttr *)
 Theorem C25_setattr_fbig : forall s c h p na fi sa sz,
-  lookup_node s h = Some (p, na) -> be_stat (fs s) p false = Ok fi -> ro (conf s) = false ->
+  lookup_node s h = Some (p, na) -> na_kind na <> KLink -> be_stat (fs s) p false = Ok fi -> ro (conf s) = false ->
   match s_mode sa with Some m => N.testbit m 15 | None => false end = false ->
   s_size sa = Some sz -> sz < two63N -> 0 < maxfile (conf s) -> maxfile (conf s) < sz ->
   let r := step s c (RSetattr h sa None) in
